@@ -84,7 +84,12 @@ Definition check_case (x : (Z * list Z) * (list Z * bool)) : bool :=
    (FlowIR.inject_default_values at load time, StatusMonitor.__init__ when reporting starts):
 
      WNum m        a number (float, int, bool): float(x) is the decimal m / (1000c)
-     WMissing      no entry for the stage, or an entry without the key 'stage-weight'
+     WMissing      no entry for the stage at all
+     WEntry        an entry for the stage (status executable / arguments / references / an empty mapping)
+                   WITHOUT the key 'stage-weight'.  The two are different code paths of inject_default_values (the
+                   first creates the entry {'stage-weight': 0.0}, the second adds the key 0.0 to the existing entry)
+                   and of the monitor (a stage without entry cannot reach it from a loaded workflow; an entry
+                   without the key is a KeyError there)
      WText (Some m) a text that float() parses to the decimal m / (1000c)   ('0.5', ' 0.5 ', '5e-1')
      WText None    a text that float() refuses with ValueError              ('n/a', '', 'high', '0,5')
      WNan          float() succeeds with nan or +-inf (the floats nan/inf, the texts 'nan', 'inf', '-Infinity')
@@ -103,7 +108,8 @@ Inductive wt : Type :=
 | WMissing
 | WText (v : option Z)
 | WNan
-| WBad.
+| WBad
+| WEntry.
 
 Definition opt_eqb (a b : option Z) : bool :=
   match a, b with Some x, Some y => x =? y | None, None => true | _, _ => false end.
@@ -115,6 +121,7 @@ Definition wt_eqb (a b : wt) : bool :=
   | WText x, WText y => opt_eqb x y
   | WNan, WNan => true
   | WBad, WBad => true
+  | WEntry, WEntry => true
   | _, _ => false
   end.
 
@@ -144,9 +151,14 @@ Definition inj_value (w : wt) : option Z :=
   | WText None => Some 0
   | WNan => None
   | WBad => Some 0            (* not reached: the load has raised *)
+  | WEntry => Some 0          (* the key is added with 0.0 first *)
   end.
 
-Definition fill (w : wt) : wt := match w with WMissing => WNum 0 | _ => w end.
+Definition fill (w : wt) : wt := match w with WMissing | WEntry => WNum 0 | _ => w end.
+
+(* a stage without an entry, a stage whose entry has no weight, and a stage of weight 0.0 *)
+Definition as_zero (w : wt) : wt := fill w.
+Definition has_weight (w : wt) : bool := match w with WMissing | WEntry => false | _ => true end.
 
 Definition defaults (c : Z) (n : nat) : list Z := map (Z.mul c) (fallback n).
 
@@ -167,7 +179,7 @@ Definition mon_value (c n : Z) (w : wt) : option Z :=
   | WNum m => Some (n * m)
   | WText (Some m) => Some (n * m)
   | WNan => None
-  | WMissing | WText None | WBad => Some (1000000 * c)
+  | WMissing | WText None | WBad | WEntry => Some (1000000 * c)
   end.
 
 (* the weights the monitor uses (StatusMonitor.stageWeights), units 1/(1000*c*n) *)
@@ -230,6 +242,29 @@ Definition ctl_finished (start : Z) (stages : list Z) (nodes : list (Z * bool)) 
   stages_finished stages (restart_nodes start nodes).
 Definition ctl_in_transit (start : Z) (nodes : list (Z * bool)) : list Z :=
   stages_in_transit (restart_nodes start nodes).
+(* ======================================================================================
+   The WINDOW between a component's termination and the controller's notification.  A component first reaches its
+   terminal state (its engine exits, ComponentState.state is finished/failed/shutdown: what the component REPORTS,
+   what StageState / get_stage_status read) and only later does the controller run Controller.finishedCheck for it
+   (another thread, behind comp_lock; postponed while the controller sleeps) and add it to comp_done (what the
+   controller has OBSERVED, Controller.node_is_active).  Both lists are computed from the OBSERVED view only. *)
+Inductive nstate : Type := NRunning | NReported | NObserved.
+Definition is_observed (s : nstate) : bool := match s with NObserved => true | _ => false end.
+Definition observed_view (nodes : list (Z * nstate)) : list (Z * bool) :=
+  map (fun ns => (fst ns, negb (is_observed (snd ns)))) nodes.
+Definition win_finished (start : Z) (stages : list Z) (nodes : list (Z * nstate)) : list Z :=
+  ctl_finished start stages (observed_view nodes).
+Definition win_in_transit (start : Z) (nodes : list (Z * nstate)) : list Z :=
+  ctl_in_transit start (observed_view nodes).
+(* the components selected by sel terminate; no notification is delivered *)
+Definition terminate_sel (sel : Z * nstate -> bool) (nodes : list (Z * nstate)) : list (Z * nstate) :=
+  map (fun ns => (fst ns, match snd ns with NRunning => if sel ns then NReported else NRunning | st => st end)) nodes.
+(* get_stage_status: components of the stage that report a terminal state / components of the stage *)
+Definition stage_size (nodes : list (Z * nstate)) (s : Z) : Z :=
+  sumZ (map (fun ns => if fst ns =? s then 1 else 0) nodes).
+Definition stage_reported (nodes : list (Z * nstate)) (s : Z) : Z :=
+  sumZ (map (fun ns => if (fst ns =? s) && negb (match snd ns with NRunning => true | _ => false end) then 1 else 0) nodes).
+
 (* the progress vector of a report when the first k stages were skipped: D (complete) for each of them *)
 Definition restart_prog (D : Z) (k : nat) (prog : list Z) : list Z := (repeat D k ++ prog)%list.
 
@@ -239,3 +274,9 @@ Definition check_rcase (x : ((Z * list Z) * list (Z * bool)) * (list Z * list Z)
   let start := fst (fst (fst x)) in let st := snd (fst (fst x)) in let nodes := snd (fst x) in
   list_eqb Z.eqb (ctl_finished start st nodes) (fst (snd x)) &&
   subset_b (ctl_in_transit start nodes) (snd (snd x)) && subset_b (snd (snd x)) (ctl_in_transit start nodes).
+
+(* correspondence with the three node states: (((starting stage, known stages), nodes: NObserved = finishedCheck was
+   delivered by the driver, NReported = the component reached its terminal state and no notification was delivered
+   (in this run), NRunning otherwise), (finished, in transit) reported by the real Controller) *)
+Definition check_wincase (x : ((Z * list Z) * list (Z * nstate)) * (list Z * list Z)) : bool :=
+  check_rcase ((fst (fst x), observed_view (snd (fst x))), snd x).
